@@ -30,6 +30,7 @@ class Net:
                           wake_grid=sc.get('wake_grid'), trace_factory=trace_factory)
         rt.activate(self.w)
         self.bus = Bus(self.w, base_lat=sc.get('base_lat', 1e-3), lat_grid=sc.get('lat_grid'))
+        self.bus.send_cost = sc.get('send_cost', 0.0)
         self.rec = Rec(self.w)
         self.stacks = []
         self.owner = {}          # address -> (stack index, ca)
@@ -39,6 +40,7 @@ class Net:
         for i, sd in enumerate(sc['stacks']):
             kw = dict(sd.get('kw', {}))
             st = Stack(self.bus, sd['name'], dll=dll, max_cmdt_packets=sd.get('win', 1), **kw)
+            st.zero_ts = bool(sc.get('zero_ts'))
             self.stacks.append(st)
             for a in sd['cas']:
                 ca = st.add_ca(a, name_value=0x1000 + a)
